@@ -87,6 +87,7 @@ UNIT_FALLBACK = {
     "nodeiter": _SLICE_FALLBACK + [("graph::verif::g_node_iter_seq", "3 calls next()/nth(n<=9) on a 9-base node")],
     "scan": [("msp::verif::m_scan_p2_k2m5", "P = Kmer2, k = 2, m = 5")],
     "graphfn": _SLICE_FALLBACK,
+    "extsdna": _SLICE_FALLBACK,
     "nodesall": _SLICE_FALLBACK + [("graph::verif::g_node_iter_seq", "3 calls next()/nth(n<=9) on a 9-base node")],
     "kmeriter": [("vmer::verif::lmer1::l_get_kmer_k5", "Lmer1 get_kmer Kmer5")],
     "compgraph": _SLICE_FALLBACK,
@@ -147,7 +148,8 @@ PROPS["C13"] = {
 PROPS["C14"] = {
     "title": "Growable DNA string is a faithful sequence container",
     "kani": lambda tier: ["dna_string::verif::d_word_order"],
-    "verus": [("dnastring", None), ("packedset", r"^PackedDnaStringSet::")],
+    "verus": [("dnastring", None), ("packedset", r"^PackedDnaStringSet::"),
+              ("extsdna", r"^(ndiffs|DnaString::hamming_distance|lemma_count_congr|lemma_count_tail)$")],
     "bounded": lambda tier: [("dna_string::verif::d_extend_b_0_33", "extend: empty prefix + 33 items"),
                              ("dna_string::verif::d_extend_b_32_1", "extend: 32-base prefix + 1 item"),
                              ("dna_string::verif::d_rc_reverse_b_33", "rc / reverse: 33 bases"),
@@ -163,7 +165,7 @@ PROPS["C14"] = {
                   "derived Ord: word-level order fact complete (d_word_order); whole-string lexicographic law only as a bounded stand-in",
                   "derived ==/Hash: lemma_eq_iff_view proves (storage, len) equal <=> views equal on wf values for all lengths; that the derived impls compare/hash exactly (storage, len) is the derive semantics (assumed; cross-checked by the bounded stand-ins)"],
     "trust": VERUS_TRUST,
-    "level_text": "Data-structure contract: every DnaString operation under contract (new, with_capacity, blank, push, set_mut, get, len, is_empty, clear, push_bytes, iter/next, addr/get_by_addr/set_by_addr) is proved to preserve the representation invariant wf (exact word count, zero padding) and to transform the abstract base vector exactly as the plain-vector operation does, for all lengths (Verus, unbounded). History quantifier = induction over these per-operation contracts.",
+    "level_text": "Data-structure contract: every DnaString operation under contract (new, with_capacity, blank, push, set_mut, get, len, is_empty, clear, push_bytes, iter/next, addr/get_by_addr/set_by_addr) is proved to preserve the representation invariant wf (exact word count, zero padding) and to transform the abstract base vector exactly as the plain-vector operation does, for all lengths (Verus, unbounded). ndiffs / hamming_distance are proved to count the differing positions of two equal-length strings for every length (padding contributes nothing by wf). History quantifier = induction over these per-operation contracts.",
     "level_note": "Trusted: Verus/Z3, extractor rules, vstd Vec specs. See undecided_clauses for the operations that are not under an unbounded contract.",
 }
 
@@ -325,14 +327,14 @@ PROPS["C08"] = {
     "title": "Shard assignment is a pure, strand-symmetric function of the k-mer",
     "kani": lambda tier: kfam(["k_min_rc", "k_to_u64", "k_rc"], tier, 2, 8) + exts(["x_from_slice_bounds"]) + lmer(["l_from_slice"], tier),
     "verus": [("scan", r"^(Scanner::(scan|lemma_same_bucket|lemma_same_bucket_rc|lemma_min_over_kmer|lemma_result|lemma_iv_mid|lemma_iv_last|lemma_pair)|Exts::from_slice_bounds|lemma_sub_window|lemma_sub_window_rc|lemma_flank_bits)$"),
-              ("mspscore", None)],
+              ("mspscore", None), ("extsdna", r"^Exts::from_dna_string$|^lemma_flank_bits$")],
     "bounded": lambda tier: [("msp::verif::m_msp_sequence_short", "msp_sequence on reads of exactly k = 3, and k - 1, bases (P = Kmer2, DnaBytes pieces)")],
     "design_ref": "DESIGN.md §6 C08",
     "undecided": [
         "msp_sequence itself (unwrap_or_else, into_iter().map().collect(), V::from_slice per piece): the composition 'each piece is the exact substring at (start, len)' is only covered by a bounded stand-in on reads of k and k-1 bases (6 bases already exhaust CBMC); its ingredients are (scan intervals: C07; flank extensions: from_slice_bounds; Lmer::from_slice: bounded Kani)",
         "the glue between the pieces (msp_sequence passes exactly this closure to Scanner::new; the default permutation 0..4^p is a permutation) is by inspection, not a discharged obligation"],
     "trust": VERUS_TRUST + [SEAM_NOTE],
-    "level_text": "Proved as lemmas over the verified contract of the real Scanner::scan (C07): for two scans - of any two reads - whose score functions agree and identify p-mers up to a class, two occurrences of the same k-mer (lemma_same_bucket) or an occurrence and a reverse-complement occurrence under a strand-symmetric score (lemma_same_bucket_rc) receive minimizers of the same class, hence the same bucket id (bucket = rank of the canonical minimizer; min_rc / to_u64 proved by Kani for all p-mer values). Exts::from_slice_bounds is proved to return exactly the read's two flanking bases and none at a read end, for every slice length (Verus, unbounded, real body). The REAL score closure of msp_sequence (statement extracted by rule R15) is proved to compute perm[rank x] resp. min(perm[rank x], perm[rank rc x]), and two lemmas show that such a score over an injective table is strand symmetric and identifies p-mers up to reverse complement - the hypotheses of the bucket lemmas.",
+    "level_text": "Proved as lemmas over the verified contract of the real Scanner::scan (C07): for two scans - of any two reads - whose score functions agree and identify p-mers up to a class, two occurrences of the same k-mer (lemma_same_bucket) or an occurrence and a reverse-complement occurrence under a strand-symmetric score (lemma_same_bucket_rc) receive minimizers of the same class, hence the same bucket id (bucket = rank of the canonical minimizer; min_rc / to_u64 proved by Kani for all p-mer values). Exts::from_slice_bounds and Exts::from_dna_string are proved to return exactly the read's two flanking bases and none at a read end, for every length (Verus, unbounded, real bodies). The REAL score closure of msp_sequence (statement extracted by rule R15) is proved to compute perm[rank x] resp. min(perm[rank x], perm[rank rc x]), and two lemmas show that such a score over an injective table is strand symmetric and identifies p-mers up to reverse complement - the hypotheses of the bucket lemmas.",
     "level_note": "Partial claim (see undecided_clauses): the msp_sequence wrapper is not under contract. Trusted: Verus/Z3, extractor rules, the V<->K seam.",
 }
 
